@@ -22,13 +22,14 @@ import (
 // panic message into the verdict.
 
 type b1env struct {
-	res  *Result
-	rng  *rand.Rand
-	m    *mesh.Mesh
-	a, b *mesh.Node
-	name string
-	base map[string]int // registry baseline per node
-	prof map[string]int // goroutine baseline
+	fatal bool // the node is wedged: report at once, no release accounting (it would block on the registry lock)
+	res   *Result
+	rng   *rand.Rand
+	m     *mesh.Mesh
+	a, b  *mesh.Node
+	name  string
+	base  map[string]int // registry baseline per node
+	prof  map[string]int // goroutine baseline
 }
 
 type b1scenario struct {
@@ -100,7 +101,9 @@ func cmdC17Child(args []string) {
 	sc.run(e)
 	// give a crash in a background goroutine the time to surface before we report success
 	time.Sleep(300 * time.Millisecond)
-	e.checkReleased()
+	if !e.fatal {
+		e.checkReleased()
+	}
 	close(doneCh)
 	res.write(*out)
 }
@@ -161,6 +164,23 @@ func (e *b1env) closeListener(li *netceptor.Listener) bool {
 			"holding the transport mutex while Listener.Close, inside the server's close-once, waits for that mutex", nil)
 	} else {
 		e.res.inconclusive("%s: Listener.Close did not return within 30 s", e.name)
+	}
+
+	return false
+}
+
+// closeSock closes a socket that may have deliveries in their hand-over; a Close that never returns is judged.
+func (e *b1env) closeSock(pc netceptor.PacketConner, tag string) bool {
+	ok, dead := closeBounded(pc.Close, 30*time.Second)
+	if ok {
+		return true
+	}
+	e.fatal = true
+	if dead {
+		e.viol("close-blocked-by-delivery", "PacketConn.Close never returns ("+tag+"): it waits for the registry write lock while a deliverer that still holds the "+
+			"read lock waits in the hand-over select for Close's cancel; every later open/dial/ping on the node hangs too", nil)
+	} else {
+		e.res.inconclusive("%s: PacketConn.Close did not return within 30 s (%s)", e.name, tag)
 	}
 
 	return false
@@ -244,7 +264,9 @@ func scTwoDeliverers(e *b1env) {
 			return
 		}
 		e.res.count("deliverers_parked")
-		_ = victim.Close()
+		if !e.closeSock(victim, variant) {
+			return
+		}
 		if !within(10*time.Second, wg.Wait) {
 			e.viol("sender-stuck-after-close", "a sender blocked in delivery did not return within 10 s after Close ("+variant+")", nil)
 		}
@@ -298,9 +320,16 @@ func scTwoDeliverersGate(e *b1env) {
 
 			return
 		}
-		_ = victim.Close()
+		// Close is called while both deliverers sit between lookup and select (it must not need them to move on,
+		// but the schedule releases them right afterwards in any case)
+		closed := make(chan bool, 1)
+		go func() { closed <- e.closeSock(victim, "two deliverers after lookup") }()
+		time.Sleep(20 * time.Millisecond)
 		r1()
 		r2()
+		if !<-closed {
+			return
+		}
 		if !within(10*time.Second, wg.Wait) {
 			e.viol("sender-stuck-after-close", "a deliverer that had looked the socket up before Close did not return within 10 s", nil)
 		}
@@ -338,10 +367,14 @@ func scLateDeliverer(e *b1env) {
 
 			return
 		}
-		_ = victim.Close()
+		closed := make(chan bool, 1)
+		go func() { closed <- e.closeSock(victim, "one deliverer blocked, one after lookup") }()
 		// the blocked deliverer wakes (as-is: it closes recvChan); then the late one runs its select
-		waitUntil(5*time.Second, time.Millisecond, func() bool { return countInFunc("handleMessageData", "select") == 0 })
+		waitUntil(2*time.Second, time.Millisecond, func() bool { return countInFunc("handleMessageData", "select") == 0 })
 		rel()
+		if !<-closed {
+			return
+		}
 		if !within(10*time.Second, wg.Wait) {
 			e.viol("sender-stuck-after-close", "a late deliverer did not return within 10 s after Close", nil)
 		}
@@ -543,7 +576,11 @@ func scCloseRaceDelivery(e *b1env) {
 			}()
 		}
 		time.Sleep(time.Duration(500+e.rng.Intn(4000)) * time.Microsecond)
-		_ = p.Close()
+		if !e.closeSock(p, "senders racing Close") {
+			close(stop)
+
+			return
+		}
 		time.Sleep(time.Duration(e.rng.Intn(2000)) * time.Microsecond)
 		close(stop)
 		if !within(15*time.Second, wg.Wait) {
